@@ -236,6 +236,10 @@ fn step(w: &mut World, s: &Value) -> (Vec<Value>, Vec<Value>) {
                 items_to_create: Some(vec![item]),
             };
             let _ = w.c.call1(req.into());
+            let now = w.at(w.now);
+            if let Some(sess) = w.c.session() {
+                sess.write().verif_set_new_items_clock(id, &now);
+            }
             (vec![], vec![])
         }
         "DeleteItem" => {
@@ -358,7 +362,9 @@ pub fn run_case(case: &Value, out: &mut Obs) {
                             "st": {"subs": [], "reqs": [], "nresp": 0, "retx": []}}));
             return;
         }
-        let mut w = World { c, base: Utc::now(), now: 0, sub_real: HashMap::new(), sub_model: HashMap::new() };
+        // whole seconds: OPC UA DateTime has 100 ns ticks, the clock must survive the conversion exactly
+        let base = CDateTime::<Utc>::from_timestamp(Utc::now().timestamp(), 0).unwrap();
+        let mut w = World { c, base, now: 0, sub_real: HashMap::new(), sub_model: HashMap::new() };
         let empty = vec![];
         let steps = case.get("steps").and_then(|s| s.as_array()).unwrap_or(&empty);
         for (i, s) in steps.iter().enumerate() {
